@@ -122,14 +122,26 @@ def check_twist(acc, mr, a, th, v):
 def _log6_equals_reference(mr, T, Lg):
     """The known finding about the logarithm near pi may only absorb a failure of the 6-D logarithm if the port's
     MatrixLog6 still is what the reference computes.  Where the reference itself returns non-finite values (its
-    unclipped arccos), the rotation part must at least be the port's own MatrixLog3 and that must equal the reference's."""
+    unclipped arccos) the comparison is with the reference's formula evaluated with the clipped argument."""
     with np.errstate(all="ignore"):
         R6 = _ref().MatrixLog6(T)
     if np.all(np.isfinite(R6)):
         return bool(np.allclose(Lg, R6, rtol=1e-9, atol=1e-9))
+    # the reference's own formula with its arccos argument clipped into [-1, 1] (all the port adds to it): rotation part from the
+    # reference's MatrixLog3, translational part G^-1 p with theta from the clipped trace
     Rr = np.ascontiguousarray(T[:3, :3])
-    L3 = mr.MatrixLog3(Rr)
-    return bool(np.allclose(L3, _ref().MatrixLog3(Rr), rtol=0, atol=1e-12) and np.allclose(Lg[:3, :3], L3, rtol=0, atol=1e-12))
+    with np.errstate(all="ignore"):
+        om = np.asarray(_ref().MatrixLog3(Rr), float)
+        if np.array_equal(om, np.zeros((3, 3))):
+            want = np.zeros((4, 4))
+            want[:3, 3] = T[:3, 3]
+        else:
+            theta = float(np.arccos(min(1.0, max(-1.0, (np.trace(Rr) - 1) / 2.0))))
+            Ginv_p = (np.eye(3) - om / 2.0 + (1.0 / theta - 1.0 / np.tan(theta / 2.0) / 2) * (om @ om) / theta) @ T[:3, 3]
+            want = np.zeros((4, 4))
+            want[:3, :3] = om
+            want[:3, 3] = Ginv_p
+    return bool(np.all(np.isfinite(want)) and np.allclose(Lg, want, rtol=1e-9, atol=1e-9))
 
 
 BASIS6 = [np.eye(6)[i] for i in range(6)] + [np.array([0.3, -0.7, 0.2, 1.5, -2.0, 0.4])]
@@ -243,23 +255,40 @@ def work_pairs(p):
     return acc.result()
 
 
+def se3_member(a, th, pos, sym=False):
+    """(R, p) as a 4x4 matrix; sym: the half turn about `a` written as the exactly symmetric matrix 2 a a^T - I (what a
+    caller who builds a half turn by hand passes in; its trace may round to either side of -1)."""
+    T = se3.T_from(np.asarray(a, float) * th, pos)
+    if sym:
+        a = np.asarray(a, float)
+        T[:3, :3] = 2.0 * np.outer(a, a) - np.eye(3)
+    return T
+
+
 def work_se3(p):
     """exp(log T) = T for every palette member T given directly as (R, p), including |p| = 1e3."""
     mr = _mr()
     A, TH, V = build(p["tier"], p["seed"])
     acc = lattice.Acc()
     cases = list(itertools.product(range(len(A)), range(len(TH)), range(len(V))))
+    todo = []
     for ia, ith, iv in cases[p["lo"]:p["hi"]]:
+        todo.append((ia, ith, iv, False))
+        if TH[ith] == PI:
+            todo.append((ia, ith, iv, True))        # the half turn also as the exactly symmetric matrix 2 a a^T - I
+    for ia, ith, iv, sym in todo:
         a, th, pos = A[ia], TH[ith], V[iv]
-        T = se3.T_from(a * th, pos)
+        T = se3_member(a, th, pos, sym)
         ang_true = th if th <= PI else 2 * PI - th
         q = {"pi_minus_angle": PI - ang_true, "angle": th}
         case = {"part": "se3", "axis": a, "angle": th, "p": pos}
+        if sym:
+            case["symmetric_half_turn"] = True
         try:
             Lg = mr.MatrixLog6(np.ascontiguousarray(T))
             if not np.all(np.isfinite(Lg)):
                 acc.violation("log6_not_finite", case, Lg, None, q)
-                acc.case(("s", tuple(np.round(a * th, 13)), tuple(pos)))
+                acc.case(("s", sym, tuple(np.round(a * th, 13)), tuple(pos)))
                 continue
             T2 = mr.MatrixExp6(Lg)
             port_eq_ref = _log6_equals_reference(mr, T, Lg)
@@ -271,7 +300,7 @@ def work_se3(p):
         acc.resid("explog6", 0.0 if inband else e)
         if not (e <= TOL):
             acc.violation("explog6", case, e, TOL, q, {"port_equals_reference": port_eq_ref})
-        acc.case(("s", tuple(np.round(a * th, 13)), tuple(pos)), nontrivial=(ang_true > 1e-6 and np.any(pos != 0)))
+        acc.case(("s", sym, tuple(np.round(a * th, 13)), tuple(pos)), nontrivial=(ang_true > 1e-6 and np.any(pos != 0)))
     return acc.result()
 
 
@@ -301,7 +330,7 @@ def replay(rec):
         elif c["part"] == "twist":
             check_twist(acc, mr, np.array(c["axis"]), c["angle"], np.array(c["v"]))
         elif c["part"] == "se3":
-            T = se3.T_from(np.array(c["axis"]) * c["angle"], c["p"])
+            T = se3_member(np.array(c["axis"]), c["angle"], c["p"], bool(c.get("symmetric_half_turn")))
             T2 = mr.MatrixExp6(mr.MatrixLog6(np.ascontiguousarray(T)))
             if not (np.abs(T2 - T).max() / scale(c["p"]) <= TOL):
                 acc.violation("explog6", c)
